@@ -23,6 +23,13 @@ import (
 //	struct      struct default giving only SOME members ("partial override")
 //	structfull  struct default giving every member
 //	zero        a default equal to the type's zero value (false, 0, 0.0, "")
+//	nest1/nest2 partial struct overrides nested over three levels (Root.f: M | *{t}, M.n: L | *{l, c}),
+//	            in both declaration orders of the outer and the middle object
+//
+// Defaults declared by the two anchored schema transformations are covered by
+// units that enable the pass (passTable): `const | type` unions (constant first
+// and last) under disjunction_with_constant_to_default, and fields_set_default
+// with a value of every type.
 type (
 	Term   = gschema.Term
 	Schema = gschema.Schema
@@ -110,6 +117,10 @@ func installHooks() {
 					return []any{"x", "y"}, true
 				}
 			}
+		case "nest1": // partial override of the middle struct (M or Root): only its title
+			return map[string]any{"t": "o"}, true
+		case "nest2": // partial override of the innermost struct L: two of its three members
+			return map[string]any{"l": "l2", "c": num("7")}, true
 		case "struct":
 			return structDefault(t, false)
 		case "structfull":
@@ -238,6 +249,93 @@ func declared(thorough bool) []Term {
 	return out
 }
 
+// ---- nested partial struct defaults (three levels) ----------------------------------------
+
+// L: every member has its own default; M refers to L with a partial override.
+func objL() Obj {
+	return Obj{Name: "L", T: irgen.StructN([]irgen.Field{{Name: "l", Required: true}, {Name: "c", Required: true}, {Name: "e", Required: true}},
+		[]Term{def(irgen.S("string"), "scalar"), def(irgen.S("int64"), "scalar"), def(irgen.S("bool"), "scalar")})}
+}
+
+func midStruct() Term {
+	return irgen.StructN([]irgen.Field{{Name: "t", Required: true}, {Name: "n", Required: true}}, []Term{def(irgen.S("string"), "scalar"), def(ref("L"), "nest2")})
+}
+
+func nestedSchemas() []Schema {
+	outer := func(target string) Term { return irgen.Struct1("f", true, def(ref(target), "nest1")) }
+	return []Schema{
+		// two levels
+		{Objs: []Obj{{Name: "Root", T: irgen.Struct1("f", true, def(ref("L"), "nest2"))}, objL()}},
+		// three levels, the outermost object declared first ...
+		{Objs: []Obj{{Name: "Root", T: outer("M")}, {Name: "M", T: midStruct()}, objL()}},
+		// ... and declared after the object it overrides (constructors are rendered in declaration order)
+		{Objs: []Obj{{Name: "Root", T: midStruct()}, {Name: "O", T: outer("Root")}, objL()}},
+		{Objs: []Obj{{Name: "Root", T: midStruct()}, objL(), {Name: "O", T: outer("Root")}}},
+	}
+}
+
+// ---- defaults declared through schema transformations -------------------------------------
+
+// passInfo describes the `transformations.schemas` passes a schema is generated with
+// and what they declare. Keyed by Schema.String() in passTable.
+type passInfo struct {
+	Name        string         // pass name (part of the witness)
+	YAML        string         // content of the passes file
+	ConstDisj   bool           // disjunction_with_constant_to_default: `const | type` fields default to the constant
+	SetDefaults map[string]any // fields_set_default: Root field -> value
+}
+
+var passTable = map[string]passInfo{}
+
+func passOf(s Schema) (passInfo, bool) { p, ok := passTable[s.String()]; return p, ok }
+
+func witnessSuffix(s Schema) string {
+	if p, ok := passOf(s); ok {
+		return " +pass:" + p.Name
+	}
+	return ""
+}
+
+func passSchemas(thorough bool) []Schema {
+	var out []Schema
+	typeOf := map[string]string{"str": "string", "int": "int64", "bool": "bool", "float": "float64"}
+	for _, flavour := range []string{"str", "int", "bool", "float"} {
+		for _, constFirst := range []bool{false, true} {
+			for _, required := range []bool{true, false} {
+				branches := []Term{irgen.S(typeOf[flavour]), irgen.Const(flavour)}
+				if constFirst {
+					branches[0], branches[1] = branches[1], branches[0]
+				}
+				s := Schema{Objs: []Obj{{Name: "Root", T: irgen.Struct1("f", required, Term{K: "disj", A: "anyOf", Sub: branches})}}}
+				passTable[s.String()] = passInfo{Name: "disjunction_with_constant_to_default", ConstDisj: true,
+					YAML: "passes:\n  - disjunction_with_constant_to_default: {}\n"}
+				out = append(out, s)
+			}
+		}
+	}
+	type sd struct {
+		t Term
+		v any
+	}
+	sets := []sd{
+		{irgen.S("string"), "d"}, {irgen.S("int64"), num("3")}, {irgen.S("float64"), num("1.5")}, {irgen.S("bool"), true},
+		{irgen.Array(irgen.S("string")), []any{"x", "y"}}, {irgen.Enum("str"), "b"}, {ref("E"), "b"},
+	}
+	if thorough {
+		sets = append(sets, sd{irgen.Array(irgen.S("int64")), []any{num("1"), num("2")}}, sd{irgen.Enum("int"), num("2")}, sd{ref("N"), num("2")})
+	}
+	for _, x := range sets {
+		for _, required := range []bool{true, false} {
+			s := gschema.WithSupport(Obj{Name: "Root", T: irgen.Struct1("v", required, x.t)})
+			b, _ := json.Marshal(x.v)
+			passTable[s.String()] = passInfo{Name: "fields_set_default", SetDefaults: map[string]any{"v": x.v},
+				YAML: "passes:\n  - fields_set_default:\n      defaults: {\"p.Root.v\": " + string(b) + "}\n"}
+			out = append(out, s)
+		}
+	}
+	return out
+}
+
 // c10Schemas is the complete schema set of the tier, smallest first, no duplicates.
 func c10Schemas(thorough bool) []Schema {
 	seen := map[string]bool{}
@@ -270,6 +368,12 @@ func c10Schemas(thorough bool) []Schema {
 		for _, b := range rep {
 			add(withObjs(irgen.StructN([]irgen.Field{{Name: "a", Required: true}, {Name: "b", Required: false}}, []Term{a, b})))
 		}
+	}
+	for _, s := range nestedSchemas() {
+		add(s)
+	}
+	for _, s := range passSchemas(thorough) {
+		add(s)
 	}
 	sort.SliceStable(out, func(i, j int) bool { return out[i].Size() < out[j].Size() })
 	return out
